@@ -12,6 +12,10 @@
 (*  F3  2A -> 0, 2A -> B, A + B -> C with equal initial amounts: rational  *)
 (*      functions p_i(t) / (1 + alpha t);                                  *)
 (*  F4  0 -> X at the general rate k*exp(-c t): x0 + s (k/c)(1 - e^(-ct)). *)
+(*  F5  F2 with a replicating first species (X -> 2X on top of the feed-   *)
+(*      forward reactions): the first exit rate is negative, the solution  *)
+(*      GROWS like exp(g t); on a grid with a long gap the integrator      *)
+(*      needs more internal steps than its first budget allows;            *)
 (* Delayed reactants / products are part of every family and count "as if  *)
 (* the delay were zero": net = immediate + delayed stoichiometry.          *)
 (*                                                                         *)
@@ -87,10 +91,12 @@ Src(rx) == rx.re[1]
 AMat(b) == [i \in 1..b.ns |-> [m \in 1..b.ns |->
               RSumSeq([r \in 1..Len(b.rx) |-> IF Src(b.rx[r]) = m THEN RMul(I(Net(b.rx[r], i)), b.rx[r].k) ELSE Zero])]]
 ExitRate(b, i) == RNeg(AMat(b)[i][i])
-IsFeedForward(b) == LET A == AMat(b) IN
+IsTriangular(b) == LET A == AMat(b) IN
     /\ \A i, m \in 1..b.ns : m > i => A[i][m] = Zero
     /\ \A i, j \in 1..b.ns : i # j => ExitRate(b, i) # ExitRate(b, j)
-    /\ \A i \in 1..b.ns : RLe(Zero, ExitRate(b, i))
+IsFeedForward(b) == IsTriangular(b) /\ \A i \in 1..b.ns : RLe(Zero, ExitRate(b, i))
+\* F5: the first species replicates faster than it is used up
+IsGrowing(b) == IsTriangular(b) /\ RLt(ExitRate(b, 1), Zero) /\ \A i \in 2..b.ns : RLe(Zero, ExitRate(b, i))
 \* c[i][j]: coefficient of exp(-a_j t) in x_i; forward substitution
 RECURSIVE CRow(_, _, _)
 CRow(b, A, i) ==       \* rows 1..i
@@ -115,6 +121,10 @@ Cert2(b) ==
     /\ IsFeedForward(b)
     /\ \A i \in 1..b.ns : State2(b, Zero)[i] = SConst(b.x0[i])
     \* exponent-wise: one time t # 0 suffices because the exit rates are pairwise distinct
+    /\ \A t \in {R(1, 2), I(1)} : DState2(b, t) = Deriv2(b, State2(b, t))
+Cert5(b) ==
+    /\ IsGrowing(b)
+    /\ \A i \in 1..b.ns : State2(b, Zero)[i] = SConst(b.x0[i])
     /\ \A t \in {R(1, 2), I(1)} : DState2(b, t) = Deriv2(b, State2(b, t))
 \* if every reaction turns one molecule into exactly one molecule the total is conserved
 Conservative2(b) == \A r \in 1..Len(b.rx) : LET rx == b.rx[r] IN Len(rx.pr) + Len(rx.dpr) = 1 + (Len(rx.re) - 1) + Len(rx.dre)
@@ -164,10 +174,11 @@ Cert4(b) ==
 
 \* ================================================================ common interface
 Cert(b) == CASE b.fam = "F1" -> Cert1(b) [] b.fam = "F2" -> Cert2(b) /\ Conserved2(b)
-             [] b.fam = "F3" -> Cert3(b) /\ Conserved3(b) [] b.fam = "F4" -> Cert4(b)
+             [] b.fam = "F3" -> Cert3(b) /\ Conserved3(b) [] b.fam = "F4" -> Cert4(b) [] b.fam = "F5" -> Cert5(b)
 \* state at time t as symbolic values
 StateAt(b, t) == CASE b.fam = "F1" -> [i \in 1..b.ns |-> SConst(State1(b, t)[i])]
                    [] b.fam = "F2" -> State2(b, t)
                    [] b.fam = "F3" -> [i \in 1..b.ns |-> SConst(State3(b, t)[i])]
                    [] b.fam = "F4" -> State4(b, t)
+                   [] b.fam = "F5" -> State2(b, t)
 =============================================================================
